@@ -165,12 +165,15 @@ def loginEnableP (pass : Str) : Prog σ LoginRes :=
   .bind (.ite none (hasSuffixC o0 '?')
           (.stmt "IssueCmd(\"yes\",\"(?i)password:\")" (issueYes D))
           (.quiet (pureM o0))) fun o1 =>
-  .bind (.stmt "waitPrompt(_,\">\")" (loginWaitPrompt D pass '>')) fun r1 =>
+  .bind (.stmt "args(_,\">\")" (pureM (σ := σ) ())) fun _ =>
+  .bind (loginWaitPromptP D pass '>') fun r1 =>
   .bind (.ite none r1.1
-          (.bind (.stmt "waitPrompt(\"enable\",\"#\")" (loginWaitPrompt D (lit "enable") '#')) fun r2 =>
+          (.bind (.stmt "args(\"enable\",\"#\")" (pureM (σ := σ) ())) fun _ =>
+           .bind (loginWaitPromptP D (lit "enable") '#') fun r2 =>
             .ite none r2.1 (.quiet (pureM (r1.2.2 ++ r2.2.2)))
               (.ite none (!lowerSuffixPw r2.2.1) (.abort "Abort()" (abortM (.loginFailed true)))
-                (.bind (.stmt "waitPrompt(_,\"#\")" (loginWaitPrompt D pass '#')) fun r3 =>
+                (.bind (.stmt "args(_,\"#\")" (pureM (σ := σ) ())) fun _ =>
+                 .bind (loginWaitPromptP D pass '#') fun r3 =>
                   .ite none r3.1 (.quiet (pureM (r1.2.2 ++ r2.2.2 ++ r3.2.2)))
                     (.abort "Abort()" (abortM (.loginFailed true))))))
           (.ite none (!hasSuffixC r1.2.1 '#') (.abort "Abort()" (abortM (.loginFailed false)))
